@@ -81,6 +81,23 @@ func init() {
 			if wf == nil || (m.W.intrinsic(wf) == nil && (wf.Blocks == nil || !m.W.allowed(wf))) {
 				return zero // os.File, loggers, …: output is not observable by the program
 			}
+			// Formatting a symbolic integer INTO A HASH DIGEST: the digest is tainted
+			// instead (its Sum becomes an unconstrained value — an over-approximation;
+			// a counterexample that depends on it does not replay natively and is
+			// reported inconclusive). Exact digits are only worth their forks where the
+			// text itself is observed.
+			if dp, ok := w.V.(Ptr); ok && m.isHashDigest(dp) {
+				save := m.Conf.FmtInts
+				m.Conf.FmtInts = false
+				txt := format(m, args[1:])
+				m.Conf.FmtInts = save
+				if s, isStr := txt.(Str); isStr {
+					m.hashAppend(dp, m.strBytes(s))
+					return Tuple{m.F.Const(64, uint64(s.Len())), Iface{}}
+				}
+				m.hashTaint(dp)
+				return zero
+			}
 			txt := format(m, args[1:])
 			s, isStr := txt.(Str)
 			if !isStr {
